@@ -24,7 +24,8 @@ RULE = ("instances of 8 registered RegDom, 4 frozen IceRegDom, a TymeDom and an 
         "IceRegDom classes (one holding a mutable data object) join the 8 classes; a mutation stream serialises an object, "
         "changes a nested list / dict / non-frozen data object in place, and serialises and round-trips it again; a refused-input "
         "stream interleaves malformed inputs (truncation at one or at every prefix length, trailing bytes, the record twice, a "
-        "non-dict top-level value; for json, cbor and mgpk) with clean round trips of other classes before the case's own round "
+        "non-dict top-level value; for json, cbor and mgpk), decodes of the same record twice (bytes / bytearray / memoryview / "
+        "str; results equal, distinct, sharing nothing; one changed in place, then a third decode) with clean round trips of other classes before the case's own round "
         "trip; non-trivial = a nested "
         "object, a non-ASCII string, an int beyond 2^53 or a list/dict field")
 MODELLED = ["json / cbor2 / msgpack as an abstract codec with dec (enc v) = Some v on the common domain (checked per case: the "
@@ -517,7 +518,9 @@ def seq_cases(rng, k):
             r = rng.random()
             t = rand_typed(rng)
             ki = rng.randrange(3)
-            if r < 0.25:
+            if r < 0.2:
+                steps.append(["twice", ki, t, rng.choice(["bytes", "bytes", "bytearray", "memoryview", "str"])])
+            elif r < 0.3:
                 steps.append(["rt", t])
             elif r < 0.6:
                 steps.append(["bad", ki, t, "trunc", rng.choice([0, 1, 2, 3, 5, 8, 13, 21, 34, 55, 10**6])])
@@ -542,6 +545,11 @@ def directed_seqs():
         out.append({"obj": tb, "seq": [["bad", ki, ice, "trail", 2], ["rt", mid]]})
         out.append({"obj": ice, "seq": [["bad", ki, leaf, "double", 0], ["bad", ki, leaf, "type", 0], ["bad", ki, leaf, "type", 1]]})
         out.append({"obj": leaf, "seq": [["bad", ki, mid, "alltrunc", 0]]})
+        for form in ("bytes", "bytearray", "memoryview", "str"):
+            itop = obj(10, mid=obj(9, leaf=leaf, v=["l", [["s", "a"]]]), leaf=obj(8, a=["l", [["i", 1]]], b=["d", []]),
+                       l=["l", [["i", 1]]], m=["d", [["x", ["i", 1]]]])
+            out.append({"obj": mid, "seq": [["twice", ki, itop, form], ["twice", ki, obj(8, a=["l", []], b=["d", []]), form],
+                                            ["twice", ki, mid, form], ["twice", ki, tb, form], ["twice", ki, obj(16, value=["l", [["i", 1]]]), form]]})
         out.append({"obj": mid, "seq": [["bad", ki, tb, "alltrunc", 0], ["bad", (ki + 1) % 3, ice, "trunc", 3]]})
     return out
 
@@ -586,6 +594,9 @@ def _asdict_tree(t):
 # Refused-input histories ("seq"): before the case's own round trip, a list of steps runs in the same process:
 #   ["rt", tree]                         round trip of another (well-typed) object through the three codecs
 #   ["bad", codec, tree, how, arg]       a malformed input derived from the valid encoding of tree is given to _from*:
+#   ["twice", codec, tree, form]         the same valid record is decoded twice (form = bytes / bytearray / memoryview /
+#        str where the library accepts it): both results equal the object, are distinct objects sharing no nested
+#        container; one is then changed in place and the record decoded a third time
 #        how = "trunc" (first arg bytes), "alltrunc" (every proper prefix, each followed by a round trip of tree),
 #              "trail" (arg extra bytes appended), "double" (the record twice), "type" (a non-dict top-level value)
 # Every _from* result must depend on its own argument only.
@@ -638,9 +649,72 @@ def run_seq(steps):
             want = "any"
         return {"codec": kind, "len": len(raw), "got": got, "want": want}
 
+    import dataclasses
+
+    def isdom(y):
+        return dataclasses.is_dataclass(y) and not isinstance(y, type)
+
+    def containers(y, acc):
+        """ids of every mutable container / data object reachable from y"""
+        if isinstance(y, (list, dict)) or isdom(y):
+            acc.add(id(y))
+        if isinstance(y, list):
+            for z in y:
+                containers(z, acc)
+        elif isinstance(y, dict):
+            for z in y.values():
+                containers(z, acc)
+        elif isdom(y):
+            for f in dataclasses.fields(y):
+                containers(getattr(y, f.name), acc)
+        return acc
+
+    def edit_in_place(y):
+        """change the first list / dict / non-frozen data object found inside y; False when there is none"""
+        todo = [y]
+        while todo:
+            z = todo.pop(0)
+            if isinstance(z, list):
+                z.append("edited"); return True
+            if isinstance(z, dict):
+                z["edited"] = 1; return True
+            if isdom(z):
+                if not z.__dataclass_params__.frozen:
+                    setattr(z, dataclasses.fields(z)[0].name, "edited"); return True
+                todo += [getattr(z, f.name) for f in dataclasses.fields(z)]
+        return False
+
+    def twice(ki, tree, form):
+        enc, dec, kind = CODECS[ki]
+        x = build(tree)
+        raw = getattr(x, enc)()
+
+        def arg():
+            b = bytes(raw)
+            return {"bytes": b, "bytearray": bytearray(b), "memoryview": memoryview(b), "str": b.decode()}[form]
+        try:
+            ref = _loads(kind, arg())
+        except Exception:
+            return {"codec": kind, "form": form, "skip": True}     # the library itself does not take this form
+        out = {"codec": kind, "form": form, "skip": False}
+        try:
+            y1 = getattr(type(x), dec)(arg())
+            y2 = getattr(type(x), dec)(arg())
+            out["equal"] = bool(y1 == x and y2 == x and type(y1) is type(x) and type(y2) is type(x))
+            out["distinct"] = y1 is not y2 and not (containers(y1, set()) & containers(y2, set()))
+            out["edited"] = edit_in_place(y1)
+            y3 = getattr(type(x), dec)(arg())
+            out["third"] = bool(y3 == x and type(y3) is type(x))
+        except Exception as ex:
+            out["exc"] = exn_kind(ex) + ": " + str(ex)[:80]
+        return out
+
     for st in steps:
         if st[0] == "rt":
             log.append({"rt": rt(st[1])})
+            continue
+        if st[0] == "twice":
+            log.append({"twice": twice(st[1], st[2], st[3])})
             continue
         _, ki, tree, how, arg = st
         x = build(tree)
@@ -697,7 +771,21 @@ def _run_one(case):
 
 def oracle(case, obs):
     for n, e in enumerate(obs.get("seqlog") or []):
-        if "rt" in e:
+        if "twice" in e:
+            t = e["twice"]
+            if t["skip"]:
+                continue
+            if "exc" in t:
+                return f"history step {n}: decoding a valid {t['codec']} record given as {t['form']} raised {t['exc']}"
+            if not t["equal"]:
+                return f"history step {n}: decoding the same {t['codec']} record twice ({t['form']}) did not give the object both times"
+            if not t["distinct"]:
+                return (f"history step {n}: two decodes of the same {t['codec']} record ({t['form']}) returned the same object "
+                        f"or objects sharing a nested container")
+            if not t["third"]:
+                return (f"history step {n}: after an in-place change of an earlier result, decoding the same {t['codec']} "
+                        f"record ({t['form']}) no longer gives the serialised object")
+        elif "rt" in e:
             if e["rt"] != [True, True, True]:
                 return f"history step {n}: a clean round trip between refused inputs failed: {e['rt']} (json, cbor, mgpk)"
         else:
